@@ -20,14 +20,15 @@ ID = "C11"
 TECHNIQUE = "bounded-exhaustive grid enumeration of degenerate symmetric inputs on the real eigen-based matrix_inverse_root; structural invariants (finite, symmetric, PD, eigenvalue cap, commutation, orthogonal equivariance) + must-raise enumeration of all small non-square/non-2D shapes"
 RULE = (
     "n in {1,2,3,4,8,16[,64 thorough]} x spectra {zero, rankdef, neg(-1e-3), neg(-1e-6), neg(-1e-9), all-negative-tiny} x bases x scale {1e-4,1,1e4} x eps (3 values per dtype, never below the dtype "
-    "resolution of the scale) x roots {1,2,4,3/2} x dtype {f32,f64} x {plain, enhance_stability}; equivariance under 6 orthogonal P per case; must-raise: all shapes (k,),(a,b) a!=b,(a,b,c) with entries <= 4 and numel > 1. "
+    "resolution of the scale) x roots {1,2,4,3/2,1/2,2/3,1001/997,317/211} x dtype {f32,f64} x {plain, enhance_stability, config carrying exponent_multiplier 1.82}; equivariance under 6 orthogonal P per case; must-raise: all shapes (k,),(a,b) a!=b,(a,b,c) with entries <= 4 and numel > 1. "
     "state = the input tuple; non-trivial = input with a zero or negative eigenvalue"
 )
 ASSUMPTIONS = ["grid only", "c = 64 in all rounding bounds; strict positive definiteness is required where kappa^(1/r) * n * u * c < 1, otherwise positive semi-definiteness up to rounding"]
 TRUSTED = ["numpy.linalg.eigvalsh float64"]
 EXHAUSTIVE = True
 CC = 64.0
-ROOTS = [Fraction(1), Fraction(2), Fraction(4), Fraction(3, 2), Fraction(1, 2), Fraction(2, 3)]  # any positive rational root
+# any positive rational root; the last two have a large denominator and are not close to a small rational
+ROOTS = [Fraction(1), Fraction(2), Fraction(4), Fraction(3, 2), Fraction(1, 2), Fraction(2, 3), Fraction(1001, 997), Fraction(317, 211)]
 EPS_REL = {"f32": [1e-1, 1e-3, 1e-6], "f64": [1e-1, 1e-6, 1e-10]}
 SPECTRA = ["zero", "rankdef", "neg3", "neg6", "neg9", "allneg"]
 
@@ -94,9 +95,13 @@ def check_input(torch, c, stats):
     kappa = (float(np.linalg.eigvalsh(An).max()) - lmin + eps) / eps
     Ps = [mx.basis("perm", n), mx.basis("householder", n), mx.basis("givens", n, 1), mx.basis("dct", n), mx.basis("perm", n, 1), mx.basis("givens", n, 3)] if n > 1 else []
     for r in ROOTS:
-        for stab in (False, True):
+        # third variant: a config carrying exponent_multiplier - the caller folds the multiplier into `root`, the routine
+        # itself must compute the root it was given
+        for stab, mult in ((False, 1.0), (True, 1.0), (False, 1.82)):
             case = dict(c, root=[r.numerator, r.denominator], stab=stab)
-            cfgobj = EigenConfig(enhance_stability=stab)
+            if mult != 1.0:
+                case["mult"] = mult
+            cfgobj = EigenConfig(enhance_stability=stab, exponent_multiplier=mult)
             A_in = A.clone()
             try:
                 X = mf.matrix_inverse_root(A, root=r, root_inv_config=cfgobj, epsilon=eps)
@@ -133,7 +138,7 @@ def check_input(torch, c, stats):
             stats["max_comm_over_nu"] = max(stats.get("max_comm_over_nu", 0.0), comm / (n * u))
             if not comm <= CC * n * u:
                 out.append((case, f"result does not commute with the input: |AX - XA|/(|A||X|) = {comm:.2e}"))
-            if not stab:
+            if not stab and mult == 1.0:
                 for pi, P in enumerate(Ps):
                     B64 = P @ An @ P.T
                     B = torch.tensor((B64 + B64.T) / 2, dtype=dt)
@@ -218,6 +223,6 @@ def replay(case):
     if case.get("mustraise"):
         bad, _ = check_mustraise(torch)
         return [m for c, m in bad if c["shape"] == case["shape"] and c["cfg"] == case["cfg"] and c["diag"] == case["diag"]]
-    c = {k: v for k, v in case.items() if k not in ("root", "stab", "P")}
+    c = {k: v for k, v in case.items() if k not in ("root", "stab", "P", "mult")}
     bad = check_input(torch, c, {})
-    return [m for cs, m in bad if cs.get("root") == case["root"] and cs.get("stab") == case["stab"] and cs.get("P") == case.get("P")]
+    return [m for cs, m in bad if cs.get("root") == case["root"] and cs.get("stab") == case["stab"] and cs.get("P") == case.get("P") and cs.get("mult") == case.get("mult")]
